@@ -6,7 +6,7 @@ from kv import dirsrv_common as dc
 PID = "C16"
 META = {
     "level": "model_checking",
-    "text": "TLC explores a transcription of kanidm's referential-integrity handling (existence check of newly added targets, "
+    "text": "TLC explores a transcription of kanidm's referential-integrity handling (existence check of newly added targets exactly as implemented - one f_inc query under the hidden-entry mask -, "
             "delete with cascade over `refers` dependents and removal of references from every entry, revive with restore of "
             "`refers`, purge, and the dynamic-group re-evaluation that writes the reference attribute dynmember) against "
             "'no reference of a live entry targets a non-live entry'; model counterexamples and sampled model behaviours are "
@@ -26,7 +26,7 @@ def run(tier, replay):
     wd = lib.workdir(PID)
     lib.build(dc.GROUP)
     quick = tier == "quick"
-    res, cex, beh = dc.mc("KRefintMC", "KRefintMC" if quick else "KRefintMCt", PID, 1, 3000, kinds=(1, 2, 3, 4, 5, 6, 7))
+    res, cex, beh = dc.mc("KRefintMC", "KRefintMC" if quick else "KRefintMCt", PID, 1, 3000, kinds=(1, 2, 3, 4, 5, 6, 7, 8))
     parts = []
     replayed = 0
     if replay:
